@@ -650,6 +650,11 @@ pub fn run(ctx: &mut Ctx, which: &str) {
     for (id, mods, ptrw, _) in hostile {
         inputs.push((id, mods, ptrw));
     }
+    // hierarchies in which a later base, not the first, has a vftable (own pointer at offset 0
+    // or none at all: every implicit field's offset depends on getting that right)
+    let lb = crate::gen_special::c06_later_base_shapes(inputs.len());
+    ctx.count("later_base_vftable_cases", lb.len() as u64);
+    inputs.extend(lb);
     let ua = under_aligned_cases(inputs.len());
     ctx.count("under_aligned_embedding_cases", ua.len() as u64);
     inputs.extend(ua);
